@@ -23,8 +23,9 @@ import (
 	fhttp "github.com/chihaya/chihaya/frontend/http"
 	fudp "github.com/chihaya/chihaya/frontend/udp"
 	"github.com/chihaya/chihaya/middleware"
-	_ "github.com/chihaya/chihaya/middleware/clientapproval"
-	_ "github.com/chihaya/chihaya/middleware/torrentapproval"
+	"github.com/chihaya/chihaya/middleware/clientapproval"
+	cjwt "github.com/chihaya/chihaya/middleware/jwt"
+	"github.com/chihaya/chihaya/middleware/torrentapproval"
 	"github.com/chihaya/chihaya/middleware/varinterval"
 	"github.com/chihaya/chihaya/pkg/log"
 	"github.com/chihaya/chihaya/storage"
@@ -590,6 +591,8 @@ func c20FrontendLive(o *Out, kind string, mx, df, sc uint32, asks []uint32, scra
 func c20Replay(o *Out, in map[string]interface{}) error {
 	log.SetOutput(io.Discard)
 	switch jStr(in["t"]) {
+	case "fields":
+		c20Fields(o, "replay")
 	case "http":
 		c20Http(o, "replay", c20FromJs(in["f"]), jBool(in["alt"]))
 	case "udp":
@@ -658,6 +661,7 @@ func c20Stream(o *Out, rng *rand.Rand, n int) {
 	}
 	u32 := func(typical int64) []int64 { return []int64{0, 1, typical, math.MaxUint32} }
 	cnt := 0
+	c20Fields(o, "config-surface")
 
 	// ---- Validate(): complete product grids
 	c20Product([][]int64{dur(7 * time.Second), dur(9 * time.Second), dur(45 * time.Second), u32(75), u32(25), u32(30)}, func(f []int64) {
@@ -865,5 +869,37 @@ func c20Stream(o *Out, rng *rand.Rand, n int) {
 	if c20Mini != nil {
 		c20Mini.Close()
 		c20Mini = nil
+	}
+}
+
+// ---- the configuration surface itself: which options exist.  The model knows a fixed set of options per component; an
+// option it does not know (or one that vanished) means behaviour depends on configuration the model says nothing about.
+func c20Fields(o *Out, kind string) {
+	comps := []struct {
+		name string
+		v    interface{}
+	}{
+		{"http", fhttp.Config{}}, {"http.parse", fhttp.ParseOptions{}}, {"udp", fudp.Config{}}, {"udp.parse", fudp.ParseOptions{}},
+		{"memory", memory.Config{}}, {"redis", redis.Config{}}, {"varinterval", varinterval.Config{}},
+		{"clientapproval", clientapproval.Config{}}, {"torrentapproval", torrentapproval.Config{}}, {"jwt", cjwt.Config{}},
+		{"response", middleware.ResponseConfig{}},
+	}
+	for _, c := range comps {
+		t := reflect.TypeOf(c.v)
+		var names, coq []string
+		for i := 0; i < t.NumField(); i++ {
+			f := t.Field(i)
+			n := f.Name
+			if f.Anonymous {
+				n = "<" + n + ">"
+			}
+			if y := f.Tag.Get("yaml"); y != "" {
+				n += ":" + y
+			}
+			names = append(names, n)
+			coq = append(coq, cB([]byte(n)))
+		}
+		o.add(Case{Kind: kind, Coq: fmt.Sprintf("CFields %s %s", cB([]byte(c.name)), cList(coq)),
+			In: map[string]interface{}{"t": "fields", "component": c.name}, Obs: map[string]interface{}{"fields": names}})
 	}
 }
